@@ -67,8 +67,18 @@ set_option maxRecDepth 100000 in
 theorem share_parity_exception :
     shareFromRaw (shareToRaw ⟨List.replicate 512 0, true⟩) = some ⟨List.replicate 512 0, false⟩ := by decide
 
+set_option maxRecDepth 100000 in
+/-- FINDING (open): the same loss in the PROTOBUF form `shwap.Share` / `TryFrom<RawShare>`, which the property's
+    exception (JSON only) does not cover -/
+theorem share_parity_protobuf_counterexample :
+    specOK (obsOpt (⟨List.replicate 512 0, true⟩ : Share) (shareFromRaw (shareToRaw ⟨List.replicate 512 0, true⟩))) = false := by
+  rw [share_parity_exception]; decide
+
 /-- … and it is allowed by the property's checker -/
-theorem share_parity_allowed (o : Obs) : specShareOK true o = true := rfl
+theorem share_parity_allowed (o : Obs) : specShareOK true .json o = true := rfl
+
+/-- the exception does not extend to the protobuf form -/
+theorem share_parity_protobuf_not_excepted : specShareOK true .protobuf .differs = false := rfl
 
 /-! ## namespaces (C14) -/
 
@@ -129,18 +139,75 @@ theorem shareproof_roundtrip (p : ShareProof) (h : ValidShareProof p) :
     specOK (obsOpt p (shareProofFromRaw (shareProofToRaw p))) = true :=
   same_of_eq (Lumina.Proofs.RoundTrip.shareproof_roundtrip p h)
 
-example : ValidShareProof ⟨[], List.replicate 29 0, [], ⟨[], [], 0, 0⟩⟩ := by
-  refine ⟨by simp, by rfl, by simp, by simp, by simp, by decide, by decide⟩
+/-- a namespaced hash, a merkle proof and an NMT proof used by the non-vacuity examples below -/
+def exHash : NsHash := ⟨List.replicate 29 0, List.replicate 29 1, List.replicate 32 7⟩
+def exMerkle : MerkleProof := ⟨2, 5, List.replicate 32 1, [List.replicate 32 2]⟩
+def exProof : NsProof := ⟨3, 5, [exHash], true, false, none⟩
+
+theorem exHash_wf : exHash.WF := by decide
+theorem exMerkle_valid : ValidMerkle exMerkle := by
+  refine ⟨by decide, by decide, by decide, by decide, ?_⟩
+  intro a ha; simp [exMerkle] at ha; subst ha; decide
+theorem exProof_wf : WFProof exProof := by
+  refine ⟨by decide, by decide, ?_, rfl⟩
+  intro s hs; simp [exProof] at hs; subst hs; exact exHash_wf
+
+/-- a row proof for rows 2..3 with a root and a merkle proof per row -/
+example : ValidRowProof ⟨[exHash, exHash], [exMerkle, exMerkle], 2, 3⟩ := by
+  refine ⟨?_, ?_, by decide, by decide⟩
+  · intro h hh; simp at hh; subst hh; exact exHash_wf
+  · intro m hm; simp at hm; subst hm; exact exMerkle_valid
+
+set_option maxRecDepth 100000 in
+/-- a share proof with two shares, one NMT proof and a one-row row proof -/
+example : ValidShareProof ⟨[List.replicate 512 0, List.replicate 512 1], List.replicate 29 0, [exProof],
+    ⟨[exHash], [exMerkle], 4, 4⟩⟩ := by
+  refine ⟨?_, by rfl, ?_, ?_, ?_, by decide, by decide⟩
+  · intro d hd; simp at hd; rcases hd with e | e <;> subst e <;> decide
+  · intro q hq; simp at hq; subst hq; exact ⟨exProof_wf, rfl⟩
+  · intro h hh; simp at hh; subst hh; exact exHash_wf
+  · intro m hm; simp at hm; subst hm; exact exMerkle_valid
 
 /-! ## bad encoding fraud proofs -/
 
 theorem befp_roundtrip (p : BefpFull) (h : ValidBefp p) : befpFromRawFull (befpToRaw p) = some p :=
   Lumina.Proofs.RoundTrip.befp_roundtrip p h
 
-example : ValidBefp ⟨some (List.replicate 32 1), ⟨7, [none, none], 1, .col⟩⟩ := by
+set_option maxRecDepth 100000 in
+/-- a fraud proof with a header hash, one present share (namespace, 512-byte share, presence proof) and one absent -/
+example : ValidBefp ⟨some (List.replicate 32 1),
+    ⟨7, [some ⟨List.replicate 29 0, List.replicate 512 3, ⟨1, 2, [exHash], true, false, none⟩, .row⟩, none], 1, .col⟩⟩ := by
   refine ⟨?_, by decide, by decide, ?_⟩
   · intro h hh; simp at hh; subst hh; decide
-  · intro s hs; simp at hs
+  · intro s hs
+    simp at hs
+    subst hs
+    refine ⟨by rfl, by decide, ⟨by decide, by decide, ?_, rfl⟩, rfl⟩
+    intro x hx; simp at hx; subst hx; exact exHash_wf
+
+/-! ## fraud proofs in JSON (`fraud_proof::Proof` ⇄ `RawFraudProof`) -/
+
+/-- the JSON form of a fraud proof — type tag `"badencoding"` + base64 of the protobuf payload — decodes back to the
+    proof, for every valid proof.  `hpb`: prost decodes what it encoded for this message (third party,
+    correspondence only). -/
+theorem fraud_proof_json_roundtrip (pb : PbCodec) (p : BefpFull) (hpb : PbRoundTripOn pb (befpToRaw p))
+    (h : ValidBefp p) : fraudFromJson pb (fraudToJson pb p) = some p :=
+  fraud_json_roundtrip pb p hpb h
+
+/-- the serde-free half: `Proof` → `RawFraudProof` → `Proof` -/
+theorem fraud_proof_raw_roundtrip (pb : PbCodec) (p : BefpFull) (hpb : PbRoundTripOn pb (befpToRaw p))
+    (h : ValidBefp p) : fraudFromRaw pb (fraudToRaw pb p) = some p :=
+  fraud_raw_roundtrip pb p hpb h
+
+/-- the tag written is the one and only tag read -/
+theorem fraud_proof_type_tag (pb : PbCodec) (p : BefpFull) : (fraudToJson pb p).proofType = "badencoding" := rfl
+
+theorem fraud_proof_unknown_type_rejected (pb : PbCodec) (r : RawFraudProof) (h : r.proofType ≠ "badencoding") :
+    fraudFromRaw pb r = none :=
+  fraud_unknown_type_rejected pb r h
+
+/-- a codec that meets the hypothesis for a given message -/
+example (r : RawBefp) : PbRoundTripOn ⟨fun _ => [1, 2, 3], fun _ => some r⟩ r := rfl
 
 /-! ## block ranges (C17) -/
 
